@@ -3,10 +3,12 @@ package main
 import (
 	"bytes"
 	"context"
+	"encoding/base64"
 	"fmt"
 	"io"
 	"net"
 	"net/http"
+	"net/url"
 	"sort"
 	"strings"
 	"sync"
@@ -395,6 +397,7 @@ type c10Trans struct {
 	hdr, trl map[string][]string
 	flag     string
 	noTrl    bool
+	noHdr    bool
 }
 
 func c10HexList(ss []string) string {
@@ -417,8 +420,12 @@ func (t *c10Trans) String() string {
 	if det == "" {
 		det = "-"
 	}
+	hdr := c10EncMap(t.hdr)
+	if t.noHdr {
+		hdr = "*" // a gRPC-web reply without a trailer frame carries both in the response header
+	}
 	return fmt.Sprintf("%s %d %s %s %d %s %s %s %s %s", c10HexList(t.bmsgs), b2i(t.beof), c10EncMap(t.bmd), c10HexList(t.cmsgs), t.code,
-		hx([]byte(t.msg)), det, c10EncMap(t.hdr), trl, t.flag)
+		hx([]byte(t.msg)), det, hdr, trl, t.flag)
 }
 
 // details of a status: the value of a single StringValue detail; anything else as the marshalled
@@ -484,6 +491,10 @@ func (e *c10Env) call(sc *c10Script, proxied bool) (t *c10Trans) {
 	if sc.front == "http" {
 		t.noTrl = true
 		e.callHTTP(ctx, sc, t)
+		return t
+	}
+	if sc.front == "web" && proxied {
+		e.callWeb(ctx, sc, t)
 		return t
 	}
 	if len(sc.reqmd) > 0 {
@@ -556,6 +567,103 @@ func (e *c10Env) call(sc *c10Script, proxied bool) (t *c10Trans) {
 		t.trl = cs.Trailer()
 	}
 	return t
+}
+
+// callWeb: the call as a gRPC-web client makes it (application/grpc-web+proto over HTTP/1.1; unary and server streaming):
+// the status comes from the trailer frame at the end of the body, or -- a reply without any message -- from the response
+// header. Metadata values of -bin keys are base64 on the wire.
+func (e *c10Env) callWeb(ctx context.Context, sc *c10Script, t *c10Trans) {
+	var text string
+	for _, op := range sc.cops {
+		if op.k == 's' {
+			text = op.m
+			break
+		}
+	}
+	pb, _ := proto.Marshal(e.newMsg(text))
+	method := "/c10.Svc/" + map[string]string{"un": "Un", "ss": "Ss"}[sc.shape]
+	req, _ := http.NewRequestWithContext(ctx, "POST", e.lb.url+method, bytes.NewReader(grpcFrame(pb)))
+	req.Header.Set("Content-Type", "application/grpc-web+proto")
+	for k, vs := range sc.reqmd {
+		for _, v := range vs {
+			if strings.HasSuffix(k, "-bin") {
+				v = base64.RawStdEncoding.EncodeToString([]byte(v))
+			}
+			req.Header.Add(k, v)
+		}
+	}
+	resp, err := http.DefaultClient.Do(req)
+	if err != nil {
+		t.code, t.msg, t.det = int(codes.DeadlineExceeded), err.Error(), "-"
+		return
+	}
+	defer resp.Body.Close()
+	body, _ := io.ReadAll(resp.Body)
+	unbin := func(m map[string][]string) map[string][]string {
+		out := map[string][]string{}
+		for k, vs := range m {
+			k = strings.ToLower(k)
+			for _, v := range vs {
+				if strings.HasSuffix(k, "-bin") {
+					b, err := base64.RawStdEncoding.DecodeString(strings.TrimRight(v, "="))
+					if err != nil {
+						b = []byte("undecodable:" + v)
+					}
+					v = string(b)
+				}
+				out[k] = append(out[k], v)
+			}
+		}
+		return out
+	}
+	hdr := unbin(resp.Header)
+	var trl map[string][]string
+	for rest := body; len(rest) >= 5; {
+		l := int(rest[1])<<24 | int(rest[2])<<16 | int(rest[3])<<8 | int(rest[4])
+		if len(rest) < 5+l {
+			t.code, t.msg, t.det = -1, "truncated frame in the gRPC-web body", "-"
+			return
+		}
+		if rest[0]&0x80 != 0 {
+			trl = unbin(webTrailers(rest[:5+l]))
+		} else {
+			m := dynamicpb.NewMessage(e.msgD)
+			if err := proto.Unmarshal(rest[5:5+l], m); err != nil {
+				t.code, t.msg, t.det = -1, "undecodable message frame", "-"
+				return
+			}
+			t.cmsgs = append(t.cmsgs, e.text(m))
+		}
+		rest = rest[5+l:]
+	}
+	src := trl
+	if trl == nil {
+		// no trailer frame: the status is in the response header, and header and trailer metadata cannot be told apart
+		src, t.noTrl, t.noHdr = hdr, true, true
+	} else {
+		t.hdr, t.trl = hdr, trl
+	}
+	st := src["grpc-status"]
+	if len(st) == 0 {
+		t.code, t.msg, t.det = -1, fmt.Sprintf("HTTP %d without a grpc-status in the response header or a trailer frame", resp.StatusCode), "-"
+		return
+	}
+	t.code, t.det = atoi(st[0]), "-"
+	if m := src["grpc-message"]; len(m) > 0 {
+		if u, err := url.PathUnescape(m[0]); err == nil {
+			t.msg = u
+		} else {
+			t.msg = m[0]
+		}
+	}
+	if d := src["grpc-status-details-bin"]; len(d) > 0 {
+		var sp spb.Status
+		if err := proto.Unmarshal([]byte(d[0]), &sp); err == nil {
+			t.det = c10Details(&sp)
+		} else {
+			t.det = "undecodable"
+		}
+	}
 }
 
 // callHTTP: the unary call as POST /c10.Svc/Un with a JSON body (the implicit binding of every method)
@@ -799,6 +907,19 @@ func c10Gen(o *out, r *rng, tier string) {
 				emit("resp-metadata", mk("un", front, sends(1), bops, s, nil, nil, h))
 			}
 		}
+	}
+	// ---- the gRPC-web front: unary and server streaming, with and without a reply message before the status ----
+	for i, s := range append([]st{okst}, fails...) {
+		bops := R
+		if s.code == 0 {
+			bops = cat(R, sends(1))
+		}
+		emit("web/unary", mk("un", "web", sends(1), bops, s, mds[i%len(mds)], nil, nil))
+		emit("web/unary", mk("un", "web", sends(1), bops, s, nil, mds[(i+1)%len(mds)], mds[(i+2)%len(mds)]))
+		for k := 0; k <= 2; k++ {
+			emit("web/stream", mk("ss", "web", sends(1), cat(R, sends(k)), s, nil, mds[(i+k)%len(mds)], mds[(i+k+3)%len(mds)]))
+		}
+		emit("web/stream", mk("ss", "web", sends(1), nil, s, mds[1], nil, nil))
 	}
 	// ---- application metadata under grpc-* names that the protocol does not reserve ----
 	appMds := []map[string][]string{{"grpc-tenant": {"acme"}}, {"grpc-retry-pushback-ms": {"250"}, "x-a": {"v1"}}, {"grpc-previous-rpc-attempts": {"2"}},
